@@ -56,6 +56,15 @@ Proof.
   rewrite (H x (or_introl eq_refl)). apply IH. intros y Hy. apply H. right. exact Hy.
 Qed.
 
+Lemma NoDup_app_intro {A} (l1 l2 : list A) :
+  NoDup l1 -> NoDup l2 -> (forall x, In x l1 -> In x l2 -> False) -> NoDup (l1 ++ l2).
+Proof.
+  induction l1 as [|a t IH]; intros H1 H2 Hd; cbn [app]; [exact H2|].
+  inversion H1; subst. constructor.
+  - intros Hin. apply in_app_or in Hin. destruct Hin as [Hin|Hin]; [contradiction | apply (Hd a); [left; reflexivity | exact Hin]].
+  - apply IH; [assumption | assumption|]. intros x Hx. apply Hd. right. exact Hx.
+Qed.
+
 (* ---------------------------------------------------------------- lookup by ordinal ---------------- *)
 Definition at_ord (i : Z) (pods : list pod) : option pod := find (fun q => getOrdinal q =? i) pods.
 
@@ -616,6 +625,119 @@ Proof.
   exists k. split; [exact K1|]. split; [exact K2|]. split; [exact K3|].
   intros m. apply run_stable. exact K3.
 Qed.
+
+(* ---------------------------------------------------------------- no pod is listed twice ------------- *)
+Lemma creates_app a b : creates (a ++ b) = creates a ++ creates b.
+Proof.
+  induction a as [|x t IH]; cbn [app creates]; [reflexivity|]. destruct x; cbn [app]; rewrite IH; reflexivity.
+Qed.
+Lemma creates_deletes l : (forall a, In a l -> exists p, a = ADelete p) -> creates l = [].
+Proof.
+  induction l as [|x t IH]; intros H; cbn [creates]; [reflexivity|].
+  destruct (H x (or_introl eq_refl)) as [p ->]. apply IH. intros a Ha. apply H. right. exact Ha.
+Qed.
+
+Lemma nvp_ordinal cur i : 0 <= i <= max_i32 -> getOrdinal (new_versioned_pod s cur upd i) = i.
+Proof.
+  intros Hi. destruct (ready_nvp cur i Hi) as (O & _). exact O.
+Qed.
+
+(* the creations of the replica loop, in order, are fresh pods at strictly increasing ordinals *)
+Lemma rl_creates cur mono : forall l i,
+  0 <= i -> i + Z.of_nat (length l) <= max_i32 + 1 ->
+  (forall k p, nth_error l k = Some (Some p) -> isCreated p = true \/ p = new_versioned_pod s cur upd (i + Z.of_nat k)) ->
+  NoDup (creates (rl_acts s cur upd mono i l))
+  /\ forall f, In f (creates (rl_acts s cur upd mono i l)) -> exists j, i <= j <= max_i32 /\ f = new_versioned_pod s cur upd j.
+Proof.
+  induction l as [|[p0|] t IH]; intros i Hi Hb Hent; cbn [rl_acts creates length] in *.
+  - split; [constructor | intros f []].
+  - assert (Ht : forall k p, nth_error t k = Some (Some p) ->
+                   isCreated p = true \/ p = new_versioned_pod s cur upd (i + 1 + Z.of_nat k)).
+    { intros k p Hk. replace (i + 1 + Z.of_nat k) with (i + Z.of_nat (S k)) by lia. apply (Hent (S k)). exact Hk. }
+    destruct (IH (i + 1) ltac:(lia) ltac:(lia) Ht) as [IH1 IH2].
+    set (rest := if rs_go mono p0 then rl_acts s cur upd mono (i + 1) t else []).
+    assert (R1 : NoDup (creates rest)) by (unfold rest; destruct (rs_go mono p0); [exact IH1 | constructor]).
+    assert (R2 : forall f, In f (creates rest) -> exists j, i + 1 <= j <= max_i32 /\ f = new_versioned_pod s cur upd j).
+    { unfold rest. destruct (rs_go mono p0); [exact IH2 | intros f []]. }
+    rewrite creates_app.
+    assert (Hhead : creates (rs_acts s cur upd mono i p0) = [] \/ creates (rs_acts s cur upd mono i p0) = [new_versioned_pod s cur upd i]).
+    { unfold rs_acts. destruct (isFailed p0 || isSucceeded p0); [right; reflexivity|].
+      destruct (isCreated p0) eqn:C; cbn [negb].
+      - left. destruct (isTerminating p0 && mono); [reflexivity|]. destruct (negb (isRunningAndReady p0) && mono); [reflexivity|].
+        destruct (identityMatches s p0 && storageMatches s p0); reflexivity.
+      - right. destruct (Hent O p0 eq_refl) as [C'|E]; [congruence|]. rewrite Z.add_0_r in E. rewrite <- E. reflexivity. }
+    destruct Hhead as [-> | ->]; cbn [app].
+    + split; [exact R1|]. intros f Hf. destruct (R2 f Hf) as (j & Hj & E). exists j. split; [lia | exact E].
+    + split.
+      * constructor; [|exact R1]. intros Hin. destruct (R2 _ Hin) as (j & Hj & E).
+        apply (f_equal getOrdinal) in E. rewrite !nvp_ordinal in E by lia. lia.
+      * intros f [<-|Hf]; [exists i; split; [lia | reflexivity]|].
+        destruct (R2 f Hf) as (j & Hj & E). exists j. split; [lia | exact E].
+  - assert (Ht : forall k p, nth_error t k = Some (Some p) ->
+                   isCreated p = true \/ p = new_versioned_pod s cur upd (i + 1 + Z.of_nat k)).
+    { intros k p Hk. replace (i + 1 + Z.of_nat k) with (i + Z.of_nat (S k)) by lia. apply (Hent (S k)). exact Hk. }
+    destruct (IH (i + 1) ltac:(lia) ltac:(lia) Ht) as [IH1 IH2]. split; [exact IH1|].
+    intros f Hf. destruct (IH2 f Hf) as (j & Hj & E). exists j. split; [lia | exact E].
+Qed.
+
+Lemma plan_creates_nodup cur pods : wf pods -> NoDup (creates (plan_acts s cur upd cnt slots pods)).
+Proof.
+  intros W. destruct (plan_acts_struct s cur upd cnt slots pods Hdel) as (a2 & a3 & Heq & H2 & H3). cbn zeta in *.
+  rewrite Heq, !creates_app.
+  rewrite (creates_deletes a2), (creates_deletes a3), !app_nil_r.
+  - apply (rl_creates cur (negb (allowsBurst s)) (replicas_of s cur upd cnt slots pods) 0); [lia | rewrite replicas_of_length; lia|].
+    intros k p Hk. pose proof (replicas_of_kind _ _ _ _ _ _ _ _ Hk) as Hkind.
+    inversion Hkind as [Hs | q Hq Ho Hr | Hr Hv]; subst.
+    + left. apply (wf_created _ W). exact Hq.
+    + right. rewrite Z.add_0_l. reflexivity.
+  - destruct H3 as [->|(_ & _ & _ & ->)]; [intros a []|]. intros a Ha. apply (ul_acts_in _ _ _ _ _ Ha).
+  - destruct H2 as [->|(_ & ->)]; [intros a []|]. intros a Ha. destruct (cl_acts_in _ _ _ _ Ha) as (q & E & _). exists q. exact E.
+Qed.
+
+Lemma NoDup_map_inj_on {A B} (f : A -> B) l : NoDup l -> (forall x y, In x l -> In y l -> f x = f y -> x = y) -> NoDup (map f l).
+Proof.
+  induction l as [|a t IH]; intros Hnd Hinj; cbn [map]; constructor.
+  - intros Hin. apply in_map_iff in Hin. destruct Hin as (y & Hy & Hyt).
+    assert (a = y) by (apply Hinj; [left; reflexivity | right; exact Hyt | symmetry; exact Hy]). subst y.
+    inversion Hnd; contradiction.
+  - inversion Hnd; subst. apply IH; [assumption|]. intros x y Hx Hy. apply Hinj; right; assumption.
+Qed.
+
+Lemma round_nodup cur pods : wf pods -> NoDup pods -> NoDup (round cur pods).
+Proof.
+  intros W Hnd. unfold round, after.
+  set (acts := plan_acts s cur upd cnt slots pods).
+  assert (Hg : forall x, In x pods -> getOrdinal (if updated acts x then fixpod x else x) = getOrdinal x).
+  { intros x Hx. destruct (updated acts x); [|reflexivity]. unfold getOrdinal. rewrite (fixpod_name x (wf_name _ W x Hx)). reflexivity. }
+  apply NoDup_app_intro.
+  - apply NoDup_map_inj_on; [apply NoDup_filter; exact Hnd|].
+    intros x y Hx Hy E. apply filter_In in Hx. apply filter_In in Hy. destruct Hx as [Hx _]. destruct Hy as [Hy _].
+    apply (wf_dist _ W); try assumption; [apply (wf_ord _ W x Hx)|].
+    rewrite <- (Hg x Hx), <- (Hg y Hy), E. reflexivity.
+  - apply NoDup_map_inj_on; [apply plan_creates_nodup; exact W|].
+    intros x y Hx Hy E. apply creates_In in Hx. apply creates_In in Hy.
+    destruct (plan_create_cases cur pods x W Hx) as (i & Ri & -> & _).
+    destruct (plan_create_cases cur pods y W Hy) as (j & Rj & -> & _).
+    assert (i = j); [|subst; reflexivity].
+    destruct (ready_nvp cur i (in_range_i32 _ Ri)) as (Oi & _). destruct (ready_nvp cur j (in_range_i32 _ Rj)) as (Oj & _).
+    rewrite <- Oi, <- Oj, E. reflexivity.
+  - intros q H1 H2. apply in_map_iff in H1. destruct H1 as (p & <- & Hp). apply filter_In in Hp. destruct Hp as [Hp Hk].
+    apply negb_true_iff in Hk. apply in_map_iff in H2. destruct H2 as (f & E & Hf). apply creates_In in Hf.
+    destruct (plan_create_cases cur pods f W Hf) as (i & Ri & -> & Hc).
+    destruct (ready_nvp cur i (in_range_i32 _ Ri)) as (Oi & _).
+    assert (Hpo : getOrdinal p = i) by (rewrite <- (Hg p Hp), <- E; exact Oi).
+    destruct Hc as [Hn|(p0 & Hp0 & Ho0 & Hd0)].
+    + apply (at_ord_None _ _ Hn p Hp Hpo).
+    + assert (p = p0) by (apply (wf_dist _ W); try assumption; [apply (wf_ord _ W p Hp) | congruence]). subst p0.
+      fold acts in Hd0. rewrite (deleted_intro _ _ Hd0) in Hk. discriminate.
+Qed.
+
+Lemma run_nodup : forall k curs pods, wf pods -> NoDup pods -> NoDup (run curs k pods).
+Proof.
+  induction k as [|k IH]; intros curs pods W Hnd; cbn [run]; [exact Hnd|].
+  apply IH; [apply round_wf; exact W | apply round_nodup; assumption].
+Qed.
+
 
 End Rounds.
 
